@@ -166,6 +166,18 @@ def run(prop, tier):
         v.add(key=key, clause=x['clause'],
               what='configuration %d (%s) line %d fails %s %s' % (x['cid'], x['family'], x['k'], x['clause'], x['note']),
               replay={'pipeline': 'floor', 'cfg': x['cfg'], 'seed': x['seed'], 'line': x['k']})
+    pool_lines = 0
+    if prop == 'C15':
+        # the resource-record clauses are also evaluated on the pool traces (PoolsTrace.tla, clauses C15.*)
+        from . import p_pools
+        pres = p_pools.result(tier)
+        pool_lines = pres['lines']
+        for x in pres['violations']:
+            if x['clause'].startswith('C15.'):
+                v.add(key='C15:%s' % x['clause'].split('.', 1)[1], clause=x['clause'],
+                      what='pool trace %d line %d fails %s' % (x['tid'], x['k'], x['clause']),
+                      replay={'pipeline': 'pools', 'ops': x['scenario'].get('ops'), 'kind': x['scenario'].get('kind'),
+                              'seed': x['scenario'].get('seed'), 'line': x['k']})
     lines, rc = v.finish()
     mine = {c: n for c, n in res['clause_counts'].items() if c.startswith(prop + '.')}
     cov = {
@@ -175,7 +187,7 @@ def run(prop, tier):
         'families': res['families'], 'exercised': res['exercised'],
         'spec_divergences': res['spec_divergences'], 'divergence_samples': res['divergence_samples'],
         'clause_failures_of_this_property': mine, 'from_cache': res['from_cache'],
-        'known_findings_hit': v.known_hits,
+        'known_findings_hit': v.known_hits, 'pool_trace_lines': pool_lines,
         'rule': 'every configuration of the scenario families (serial, parallel, resources, each also with scripted faults) is run '
                 'on the real package; after every dispatched event the projected state is logged and TLC evaluates the '
                 'property observers of FloorObs.tla on every line and compares the line with the closed specification '
